@@ -32,16 +32,10 @@ structure Identity where
   rdns : Option (List (List Attr))     -- `ldap.ParseDN(part of raw after the first separator)`
   deriving Repr, FromJson, ToJson
 
-/-- verification capabilities a plugin can declare (`GetMetadata`, filtered by processSignature) -/
-inductive Capability
-  | trustedIdentity     -- SIGNATURE_VERIFIER.TRUSTED_IDENTITY
-  | revocationCheck     -- SIGNATURE_VERIFIER.REVOCATION_CHECK
-  deriving DecidableEq, Repr, FromJson, ToJson
-
 /-- the installed verification plugin the signature names (`io.cncf.notary.verificationPlugin`) -/
 structure Plugin where
-  capabilities : List Capability       -- what its metadata declares
-  identitySuccess : Bool               -- `VerificationResults[TRUSTED_IDENTITY].Success` of its answer
+  capabilities : List Text             -- `metadata.Capabilities`, exactly as the plugin spells them
+  identitySuccess : Bool               -- `VerificationResults[SIGNATURE_VERIFIER.TRUSTED_IDENTITY].Success` of its answer
   deriving Repr, FromJson, ToJson
 
 structure Input where
@@ -171,18 +165,39 @@ def verifyIdentities (identities : List Identity) (chain : List DN) : Bool :=
         | none => false
         | some l => ms.any (fun m => isSubset m l)
 
+/-- `pluginframework.CapabilityTrustedIdentityVerifier` / `CapabilityRevocationCheckVerifier` -/
+def capTrustedIdentity : Text :=
+  ['S','I','G','N','A','T','U','R','E','_','V','E','R','I','F','I','E','R','.','T','R','U','S','T','E','D','_','I','D','E','N','T','I','T','Y']
+def capRevocationCheck : Text :=
+  ['S','I','G','N','A','T','U','R','E','_','V','E','R','I','F','I','E','R','.','R','E','V','O','C','A','T','I','O','N','_','C','H','E','C','K']
+
+/-- the filter loop of processSignature: `pluginCapabilities` keeps the declared capabilities
+that are EXACTLY one of the two verification capabilities (`capability == …`: letter case and
+white space matter) -/
+def pluginCaps (p : Plugin) : List Text :=
+  p.capabilities.filter (fun c => c == capRevocationCheck || c == capTrustedIdentity)
+
+/-- `len(pluginCapabilities) == 0`: the signature is refused as inconclusive before any
+authenticity result exists -/
+def refused (i : Input) : Bool :=
+  match i.plugin with
+  | none => false
+  | some p => (pluginCaps p).isEmpty
+
 /-- `!slices.Contains(pluginCapabilities, CapabilityTrustedIdentityVerifier)`: notation performs
 the identity check itself -/
 def nativeCheck (i : Input) : Bool :=
   match i.plugin with
   | none => true
-  | some p => !p.capabilities.contains .trustedIdentity
+  | some p => !(pluginCaps p).isEmpty && !(pluginCaps p).contains capTrustedIdentity
 
-/-- what a plugin that owns the check answers (`processPluginResponse`) -/
+/-- what stands in the authenticity result when the native check does not run: nothing that
+passes for a refused plugin, otherwise the verdict of the plugin that owns the check
+(`processPluginResponse`) -/
 def pluginVerdict (i : Input) : Bool :=
   match i.plugin with
   | none => true
-  | some p => p.identitySuccess
+  | some p => !(pluginCaps p).isEmpty && p.identitySuccess
 
 /-- `processSignature`: trust-store authenticity passed (the harness arranges that). Unless a
 plugin owns the trusted-identity capability the native check runs and its error overwrites the
@@ -291,10 +306,11 @@ def mintedClauses (i : Input) (o : Obs) : Clauses :=
 /-- every clause becomes `g -> clause` -/
 def guarded (g : Bool) (cs : Clauses) : Clauses := cs.map (fun c => (c.1, !g || c.2))
 
-/-- a plugin takes the check over only by declaring the trusted-identity capability, and then
-its verdict is the result -/
+/-- a plugin takes the check over only by declaring the trusted-identity capability in its exact
+spelling, and then its verdict is the result -/
 def pluginClauses (i : Input) (o : Obs) : Clauses :=
-  [ ("plugin_owning_trusted_identity_decides", nativeCheck i || o.pass == pluginVerdict i) ]
+  [ ("plugin_owning_trusted_identity_decides", nativeCheck i || o.pass == pluginVerdict i),
+    ("plugin_without_an_exactly_spelled_verification_capability_is_refused", !refused i || !o.pass) ]
 
 /-- the assumption that connects the rendered and the minted subject -/
 def assumptionClauses (i : Input) : Clauses :=
